@@ -183,8 +183,8 @@ Definition wf_name (q : str) : bool :=
                    end
   | _ => negb (mem 123 q) && negb (mem 125 q)
   end.
-Definition g_wf_node (m : nsmap) (t : itree) : bool :=
-  wf_name (i_name t) && forallb (fun kv => wf_name (fst kv)) (i_atts t).
+Definition g_names_node (m : nsmap) (t : itree) : bool :=
+  wf_name (i_name t) && forallb (fun kv => wf_name (fst kv)) (i_atts t) && nodup_keys (i_atts t).
 
 Definition bit (b : bool) (n : N) : N := if b then n else 0.
 
@@ -235,7 +235,7 @@ Definition judge_obs (t : itree) (ob : obs) : N :=
   + bit (negb (g_xsitype [] t)) 1024
   + bit (negb (g_space [] t && match ob_pl ob with Some _ => ws_consistent (i_text t) | None => true end)) 2048
   + bit (match ob_pl ob with Some _ => negb (g_first_level [] t) | None => false end) 4096
-  + bit (negb (tree_all g_wf_node [] t)) 8192.
+  + bit (negb (tree_all g_names_node [] t)) 8192.
 
 Fixpoint judge_list (t : itree) (i : N) (l : list obs) : list (N * N) :=
   match l with
